@@ -246,14 +246,24 @@ def _module_level_deletes(prog: Program, res: Result) -> None:
             pa = pa or PathAnalysis(prog, fn, term_hook=P.name_hook)
             worlds = pa.worlds_at(y)
             tok = lambda w: w.token(x)
-            ok = bool(worlds) and all(
-                world_has(w, False, lambda t: "has_side_effect(" + x in t.replace(" ", "") or f"has_side_effect({x}," in t or f"has_side_effect({x})" in t)
-                or world_has(w, True, lambda t: t.startswith(f"isinstance({x},") and not any(k in t for k in ("FunctionDef", "ClassDef", "Assign")))
+            by_kind = bool(worlds) and all(
+                world_has(w, True, lambda t: t.startswith(f"isinstance({x},") and not any(k in t for k in ("FunctionDef", "ClassDef", "Assign")))
                 for w in worlds)
-            res.decide(ok, "R7.6", fn.loc(y), fn.fq, short(y, 80),
-                       f"'{x}' can be a top-level statement of the module, deleted only under `not has_side_effect({x})` (definitions and name stores are effects)" if ok else
-                       f"'{x}' can be a top-level statement of the module ('{holder}' may be the module itself) and is deleted without any test that rules out definitions; "
-                       "this rule has no `preserve` parameter, so safe mode cannot protect the module's public surface from it")
+            by_effect = bool(worlds) and all(
+                world_has(w, False, lambda t: "has_side_effect(" + x in t.replace(" ", "") or f"has_side_effect({x}," in t or f"has_side_effect({x})" in t)
+                for w in worlds)
+            if by_kind:
+                res.ok("R7.6", fn.loc(y), fn.fq, short(y, 80), f"'{x}' can be a top-level statement of the module, deleted only under a kind test that excludes definitions")
+            elif by_effect:
+                # core.has_side_effect answers 'no effect' for a statement that binds the name `_` (documented convention);
+                # a rule without a preserve parameter cannot know that `_` is part of the module's surface
+                res.bad("R7.6", fn.loc(y), fn.fq, short(y, 80),
+                        f"'{x}' can be a top-level statement of the module and is deleted under `not has_side_effect({x})`; that test lets a binding of `_` through "
+                        "(`_ = value`, `def _()`), and this rule has no `preserve` parameter: in safe mode a top-level variable named _ is deleted")
+            else:
+                res.bad("R7.6", fn.loc(y), fn.fq, short(y, 80),
+                        f"'{x}' can be a top-level statement of the module ('{holder}' may be the module itself) and is deleted without any test that rules out definitions; "
+                        "this rule has no `preserve` parameter, so safe mode cannot protect the module's public surface from it")
 
 
 def _unpacker(prog: Program, res: Result) -> None:
@@ -285,6 +295,12 @@ def _unpacker(prog: Program, res: Result) -> None:
 from ..selftest import Variant  # noqa: E402
 
 VARIANTS = [
+    Variant("pointless-statements-without-preserve", "FIRE", "fixes",
+            "def delete_pointless_statements(source: str, preserve: Collection[str] = frozenset()) -> str:", "def delete_pointless_statements(source: str, preserved: Collection[str] = frozenset()) -> str:", "R7.6",
+            extra=[("fixes", "    underscore_is_a_variable = \"_\" in preserve or any(", "    underscore_is_a_variable = \"_\" in preserved or any("),
+                   ("main", "    source = fixes.delete_pointless_statements(source, preserve=preserve)\n", "    source = fixes.delete_pointless_statements(source)\n")]),
+    Variant("underscore-binding-stripped-without-preserve-test", "FIRE", "fixes",
+            "    if \"_\" in preserve or any(core.walk(root, ast.Name(id=\"_\", ctx=ast.Load))):\n        return\n", "", "R7.2"),
     Variant("format-file-forgets-safe", "FIRE", "main",
             "    source = format_code(initial_content, preserve=preserve, safe=safe, keep_imports=keep_imports)", "    source = format_code(initial_content, preserve=preserve, keep_imports=keep_imports)", "R7.1"),
     Variant("main-forgets-safe", "FIRE", "main", "            source = format_code(source, preserve=preserve, safe=args.safe)", "            source = format_code(source, preserve=preserve)", "R7.1"),
